@@ -20,6 +20,9 @@ pub enum NFate {
     Dup,
     Delay1,
     Delay2,
+    Delay4,
+    /// delivered now and once more three ticks later
+    DupLate3,
 }
 
 #[derive(Clone, Debug)]
@@ -72,6 +75,8 @@ pub struct SimCfg {
     pub fates: Vec<NFate>,
     /// attacker injections as decision points (at the server, once per tick inside the horizon)
     pub inject: bool,
+    /// the scenario guarantees room for every undisturbed client at the end (e.g. the other client was disconnected)
+    pub room_guaranteed: bool,
 }
 
 impl SimCfg {
@@ -92,6 +97,7 @@ impl SimCfg {
             server_payload_ticks: vec![],
             fates: vec![NFate::Ok, NFate::Drop, NFate::Dup, NFate::Delay1, NFate::Delay2],
             inject: false,
+            room_guaranteed: false,
         }
     }
     pub fn token_for(&self, i: usize) -> ConnectToken {
@@ -281,6 +287,11 @@ impl<'c> Sim<'c> {
             }
             NFate::Delay1 => q.push((d, base + 1)),
             NFate::Delay2 => q.push((d, base + 2)),
+            NFate::Delay4 => q.push((d, base + 4)),
+            NFate::DupLate3 => {
+                q.push((d, base));
+                q.push((d, base + 3));
+            }
         }
     }
 
